@@ -51,10 +51,12 @@ void Curve::append_cubic(const Vec2 p0, const Vec2 p1, const Vec2 p2, const Vec2
             double curvature = fabs(dc.cross(d2c)) / (len_dc * len_dc * len_dc);
             if (curvature < GDSTK_PARALLEL_EPS) {
                 dt = 1.0;
-            } else {
+            } else if (curvature * tolerance < 2) {
                 double angle = 2 * acos(1 - curvature * tolerance);
                 dt = angle / (curvature * len_dc);
             }
+            // Otherwise the radius of curvature is below half the tolerance
+            // (acos would return NaN): keep the default step, as in a cusp.
         }
         if (t + dt > 1) dt = 1 - t;
         if (dt > 1.0 / GDSTK_MIN_POINTS) dt = 1.0 / GDSTK_MIN_POINTS;
@@ -102,10 +104,12 @@ void Curve::append_quad(const Vec2 p0, const Vec2 p1, const Vec2 p2) {
             double curvature = fabs(dc.cross(d2c)) / (len_dc * len_dc * len_dc);
             if (curvature < GDSTK_PARALLEL_EPS) {
                 dt = 1.0;
-            } else {
+            } else if (curvature * tolerance < 2) {
                 double angle = 2 * acos(1 - curvature * tolerance);
                 dt = angle / (curvature * len_dc);
             }
+            // Otherwise the radius of curvature is below half the tolerance
+            // (acos would return NaN): keep the default step, as in a cusp.
         }
         if (t + dt > 1) dt = 1 - t;
         if (dt > 1.0 / GDSTK_MIN_POINTS) dt = 1.0 / GDSTK_MIN_POINTS;
@@ -167,10 +171,12 @@ void Curve::append_bezier(const Array<Vec2> ctrl) {
             double curvature = fabs(dc.cross(d2c)) / (len_dc * len_dc * len_dc);
             if (curvature < GDSTK_PARALLEL_EPS) {
                 dt = 1.0;
-            } else {
+            } else if (curvature * tolerance < 2) {
                 double angle = 2 * acos(1 - curvature * tolerance);
                 dt = angle / (curvature * len_dc);
             }
+            // Otherwise the radius of curvature is below half the tolerance
+            // (acos would return NaN): keep the default step, as in a cusp.
         }
         if (t + dt > 1) dt = 1 - t;
         if (dt > dt_max) dt = dt_max;
